@@ -37,6 +37,7 @@ type twinEnv struct {
 	TZ         string `json:"tz"`
 	Extra      bool   `json:"extra_reads"` // read-only queries and discarded cache-context executions between operations
 	Restart    bool   `json:"restart"`     // full-application twin only: the node is restarted (new application object, stores copied) at marked blocks
+	RestartAll bool   `json:"restart_all,omitempty"` // ... at every block boundary
 }
 
 type stepOut struct {
@@ -45,6 +46,9 @@ type stepOut struct {
 	Result string `json:"result"`
 	Digest string `json:"digest"`
 	Obs    string `json:"obs,omitempty"` // extra projected observable (e.g. the picked validator)
+	// Events: digest of the event sequence (type + attributes, in order) the operation left in the event managers of
+	// the contexts it ran on — what a block's result carries besides the state
+	Events string `json:"events,omitempty"`
 }
 
 func twinEnvs(tier string) []twinEnv {
@@ -52,11 +56,11 @@ func twinEnvs(tier string) []twinEnv {
 		{Name: "plain", FlagSet: false, GoMaxProcs: 1, TZ: "UTC"},
 		{Name: "flag+queries", FlagSet: true, FlagValue: "1", GoMaxProcs: 8, TZ: "Asia/Tokyo", Extra: true},
 		{Name: "flag-empty", FlagSet: true, FlagValue: "", GoMaxProcs: 2, TZ: "America/New_York", Restart: true},
-		{Name: "plain+queries", FlagSet: false, GoMaxProcs: 4, TZ: "UTC", Extra: true, Restart: true},
+		{Name: "plain+queries", FlagSet: false, GoMaxProcs: 4, TZ: "UTC", Extra: true, Restart: true, RestartAll: true},
 	}
 	if tier == "thorough" {
 		for i := 0; i < 12; i++ {
-			envs = append(envs, twinEnv{Name: fmt.Sprintf("rep%d", i), FlagSet: i%2 == 0, FlagValue: "x", GoMaxProcs: 1 + i%16, TZ: "UTC", Extra: i%3 == 0, Restart: i%4 == 1})
+			envs = append(envs, twinEnv{Name: fmt.Sprintf("rep%d", i), FlagSet: i%2 == 0, FlagValue: "x", GoMaxProcs: 1 + i%16, TZ: "UTC", Extra: i%3 == 0, Restart: i%4 == 1, RestartAll: i%8 == 5})
 		}
 	}
 	return envs
@@ -190,8 +194,9 @@ func childMain(t *testing.T) {
 		if extra {
 			w.extraReads(op)
 		}
+		w.resetEvents()
 		res, obs := w.apply(op)
-		js, _ := json.Marshal(stepOut{I: i, Kind: op.Kind, Result: res, Digest: w.digest(), Obs: obs})
+		js, _ := json.Marshal(stepOut{I: i, Kind: op.Kind, Result: res, Digest: w.digest(), Obs: obs, Events: w.events()})
 		bw.Write(js)
 		bw.WriteByte('\n')
 	}
@@ -271,7 +276,7 @@ func TestCorr(t *testing.T) {
 				replay["history"] = script[:d+1]
 			}
 			run.Violate("C08:twin-divergence:"+op.id(), fmt.Sprintf("same history, different outcome: operation %s gives %q under environment %s and %q under %s",
-				op.id(), outs[0][d].Result+"/"+outs[0][d].Obs, envs[0].Name, outs[k][d].Result+"/"+outs[k][d].Obs, envs[k].Name), replay)
+				op.id(), outs[0][d].Result+"/"+outs[0][d].Obs+" events="+outs[0][d].Events, envs[0].Name, outs[k][d].Result+"/"+outs[k][d].Obs+" events="+outs[k][d].Events, envs[k].Name), replay)
 			break
 		}
 		return outs
